@@ -531,6 +531,50 @@ def gen_linear_lattice(rng, n_max, depth):
     return lat
 
 
+# ---------------------------------------------------------------- float32, strongly off-axis beams (numerical form of the covariance update)
+def offaxis32_stage(run, n_cases):
+    """A small beam far off axis (offset / size ~ 1e3) through the linear classes in float32: the tracked ParameterBeam covariance must be the
+    float32 image of the float64 one (the congruence tm cov tm^T has a rounding error of order eps * cov; a mathematically equal update through
+    raw second moments has eps * |mu|^2 and loses every digit here), symmetric and positive semi-definite."""
+    import cheetah
+    bad = []
+    classes = ["Drift", "Quadrupole", "Dipole", "Solenoid", "HorizontalCorrector", "VerticalCorrector"]
+    for i in range(n_cases):
+        cls = classes[i % len(classes)]
+        spec = realgen.gen_element(run.rng, cls=cls, name="e", method="cheetah")
+        if "length" in spec["kw"] and spec["kw"]["length"] == 0.0:
+            spec["kw"]["length"] = 0.5
+        sig = [run.rng.choice([2e-6, 5e-6]) for _ in range(4)] + [run.rng.choice([1e-5, 3e-5]), run.rng.choice([1e-4, 3e-4])]
+        mu = [run.rng.choice([5e-3, -4e-3]), run.rng.choice([2e-3, -1e-3]), run.rng.choice([-5e-3, 3e-3]), run.rng.choice([1e-3, -2e-3]), 0.0, 0.0, 1.0]
+        cov = [[0.0] * 7 for _ in range(7)]
+        for k in range(6):
+            cov[k][k] = sig[k] ** 2
+        c01 = 0.5 * sig[0] * sig[1]
+        cov[0][1] = cov[1][0] = c01
+        beam = {"type": "parameter", "mu": mu, "cov": cov, "energy": 1e8, "total_charge": 1e-12}
+        try:
+            o64 = realgen.build(spec, torch.float64).track(realgen.build_beam(beam, torch.float64))
+            o32 = realgen.build(spec, torch.float32).track(realgen.build_beam(beam, torch.float32))
+        except Exception:
+            run.count("offaxis32_exception_" + cls)
+            continue
+        run.add_case(["offaxis32", spec, beam], True)
+        run.count("offaxis32_" + cls)
+        S64, S32 = o64._cov[:6, :6], o32._cov[:6, :6].double()
+        if not bool(torch.isfinite(S64).all() and torch.isfinite(o64._mu).all()):
+            run.count("offaxis32_unspecified_nan_in_float64_" + cls)      # e.g. kx2 = k1 + hx^2 = 0 exactly: sin(0)/0, unspecified region
+            continue
+        d = torch.sqrt(torch.clamp_min(torch.diag(S64), 0.0))
+        dd = d[:, None] * d[None, :] + 1e-300
+        dev = ((S32 - S64).abs() / dd)
+        asym = ((S32 - S32.T).abs() / dd)
+        if not bool(torch.isfinite(S32).all()) or float(dev.max()) > 2e-3 or float(asym.max()) > 2e-3:
+            k = int(dev.argmax())
+            bad.append({"kind": "offaxis_float32", "spec": spec, "beam": beam, "entry": [k // 6, k % 6], "max_rel_dev_of_cov": float(dev.max()),
+                        "max_asymmetry": float(asym.max()), "float32": float(S32.reshape(-1)[k]), "float64": float(S64.reshape(-1)[k])})
+    return bad
+
+
 def real_layer(run, n_per_class, n_seg):
     bad = []
     for cls in LINEAR_CLASSES:
@@ -991,6 +1035,7 @@ def main(tier, replay=None):
     wcases, wfail, wimpl = exact_wmaps(run, 300 if thorough else 60)
     t2 = time.time()
     bad_real = real_layer(run, 40 if thorough else 6, 600 if thorough else 60)
+    bad_off32 = offaxis32_stage(run, 60 if thorough else 12)
     t3 = time.time()
     bad_vec = vector_layer(run, 25 if thorough else 4, 300 if thorough else 24)
     run.cov.setdefault("stage_seconds_extra", {})["vector"] = round(time.time() - t3, 1)
@@ -1024,6 +1069,9 @@ def main(tier, replay=None):
         run.violation({"kind": "weighted_dyadic_map", "map": m, "particles": ps, "survival": ws, "E": E, "charges": q, "observed": obs,
                        "differs": w_oracle(obs, ws) or ["non-finite moments"],
                        "relation": "survival-weighted moments(track(ParticleBeam)) == track(ParameterBeam(weighted moments))"})
+    elif bad_off32:
+        run.violation(dict(bad_off32[0], relation="float32 ParameterBeam tracking == float32 image of float64 tracking (covariance to 2e-3 of sigma_i sigma_j), symmetric",
+                           n_failing=len(bad_off32)))
     elif bad_real:
         run.violation(dict(shrink_real(bad_real[0]), relation="moments(track(ParticleBeam)) == track(ParameterBeam(moments)), energy/charge equal, cov symmetric PSD"))
     elif bad_vec:
